@@ -103,16 +103,20 @@ class Impl(object):
         elif k == 'start':
             if not self.svc.running:
                 self.svc.startService()
-        elif k == 'sub':
-            self.svc.subscribe(hx(ev[1]).decode())
-        elif k == 'unsub':
-            self.svc.unsubscribe(hx(ev[1]).decode())
-        elif k == 'pub':
-            self.svc.publish(hx(ev[1]).decode(), hx(ev[2]))
-        elif k == 'read':
-            d = self.svc.read()
-            d.addCallbacks(lambda m: self.out.append('H:%s:%s:%s' % (hexf(m[0].encode()), hexf(m[1].encode()), hexf(m[2]))),
-                           lambda f: self.out.append('Hexc:' + f.type.__name__))
+        elif k in ('sub', 'unsub', 'pub', 'read'):
+            try:
+                if k == 'sub':
+                    self.svc.subscribe(hx(ev[1]).decode())
+                elif k == 'unsub':
+                    self.svc.unsubscribe(hx(ev[1]).decode())
+                elif k == 'pub':
+                    self.svc.publish(hx(ev[1]).decode(), hx(ev[2]))
+                else:
+                    d = self.svc.read()
+                    d.addCallbacks(lambda m: self.out.append('H:%s:%s:%s' % (hexf(m[0].encode()), hexf(m[1].encode()), hexf(m[2]))),
+                                   lambda f: self.out.append('Hexc:' + f.type.__name__))
+            except Exception as e:
+                self.out.append('raised:%s:%s' % (k, type(e).__name__))
         elif k == 'close':
             if self.stop_d is None:
                 self.stop_d = defer.maybeDeferred(self.svc.stopService)
